@@ -38,6 +38,11 @@ func oracle(r *hx.Run, id string, c dialx.Case, o dialx.Obs) {
 		if c.HS == "stall" {
 			at = "TLS-HANDSHAKE"
 		}
+		for _, t := range c.Script {
+			if strings.HasPrefix(t, "ws") || strings.HasPrefix(t, "wf") {
+				at = "CONTENT" // the server stopped reading after the 354
+			}
+		}
 		call := o.HungCall
 		if call == "" {
 			call = c.Kind
@@ -254,6 +259,14 @@ func generate(r *hx.Run, pki *dialx.PKI) []dialx.Case {
 				out = append(out, c)
 			}
 		}
+	}
+	if ws, err := dialx.WriteStallCases(pki); err == nil {
+		out = append(out, ws...)
+	} else {
+		r.Fail("baseline", "harness-error", err.Error())
+	}
+	if thorough {
+		out = append(out, dialx.WriteStallTCPCases()...)
 	}
 	return append(out, dialx.FallbackTCPCases()...)
 }
